@@ -188,8 +188,12 @@ func (w *worker[T, JobType]) releaseWaiters(processing uint32) {
 
 	// Only release waiters if worker is paused or if running with an empty queue
 	if w.IsPaused() || (w.IsRunning() && w.queues.Len() == 0) {
-		// Broadcast to all waiters to signal they can continue
+		// Broadcast to all waiters to signal they can continue.
+		// The lock keeps the broadcast from falling between a waiter's condition check
+		// and its Wait, where it would be lost and the waiter would sleep forever.
+		w.mx.Lock()
 		w.waiters.Broadcast()
+		w.mx.Unlock()
 	}
 }
 
